@@ -18,7 +18,7 @@ fn tokens(rule: &str) -> Vec<String> {
     out
 }
 
-fn mutate(g: &mut Gen, rule: &str) -> String {
+pub fn mutate(g: &mut Gen, rule: &str) -> String {
     let mut t = tokens(rule);
     if t.is_empty() { return rule.to_string() }
     for _ in 0..1 + g.rng.below(2) {
@@ -34,7 +34,7 @@ fn mutate(g: &mut Gen, rule: &str) -> String {
     t.concat()
 }
 
-fn noise(g: &mut Gen, n: usize) -> String { (0..n).map(|_| ALPHABET[g.rng.below(ALPHABET.len())]).collect::<Vec<_>>().concat() }
+pub fn noise(g: &mut Gen, n: usize) -> String { (0..n).map(|_| ALPHABET[g.rng.below(ALPHABET.len())]).collect::<Vec<_>>().concat() }
 
 fn alias_line(g: &mut Gen, derom: bool) -> String {
     let repl = ["sh", "tt", "á", "+@{acute}", "\\u{00FE}", "@{Space}", "x"][g.rng.below(7)];
